@@ -160,4 +160,45 @@ Section CiteRun.
   Proof.
     intros H. destruct (force_thunk_error_origin _ _ _ _ _ H) as [[l ->]|Ho]; [apply cancelled_not_unwrapped|eapply origin_not_unwrapped, Ho].
   Qed.
+
+  (* ---- who creates the stored contexts: whatever a statement stores carries its own error context ---- *)
+  (* d is the debug info of a thunk, of a pending scoped definition, of a deferred statement, or recorded in
+     prev_element_debug_info of s *)
+  Definition ctx_stored (s : lstate) (d : stmt_ctx) : Prop :=
+    In d (store_dbgs s) \/
+    (exists name ps x, alist_get name (l_scoped s) = Some (SVUnforced ps) /\ In (x, d) ps) \/
+    In d (map ls_dbg (l_edges s ++ l_attrs s ++ l_prints s)) \/
+    In d (map snd (l_prev s)).
+
+  Lemma ctx_stored_inv (V : stmt_ctx -> Prop) s : (forall d, ctx_stored s d -> V d) <-> Inv V (fun _ => True) s.
+  Proof.
+    split.
+    - intros H. unfold Inv, store_ok, scoped_ok, stmts_ok, prev_ok. repeat split.
+      + rewrite Forall_forall. intros th Hin. apply H. left. unfold store_dbgs. apply in_map, Hin.
+      + intros name c Hg. destruct c as [ps| |mp]; cbn [cell_ok]; auto. unfold pairs_ok. rewrite Forall_forall. intros [x d] Hin. cbn [snd].
+        apply H. right. left. exists name, ps, x. auto.
+      + rewrite Forall_forall. intros st Hin. apply H. right. right. left. apply in_map. apply in_or_app. left. exact Hin.
+      + rewrite Forall_forall. intros st Hin. apply H. right. right. left. apply in_map. apply in_or_app. right. apply in_or_app. left. exact Hin.
+      + rewrite Forall_forall. intros st Hin. apply H. right. right. left. apply in_map. apply in_or_app. right. apply in_or_app. right. exact Hin.
+      + rewrite Forall_forall. intros x Hin. apply H. right. right. right. apply in_map, Hin.
+    - intros (Hst & Hsc & He & Ha & Hp & Hv) d [H|[(name & ps & x & Hg & Hin)|[H|H]]].
+      + unfold store_dbgs in H. apply in_map_iff in H as (th & <- & Hin). unfold store_ok in Hst. rewrite Forall_forall in Hst. apply Hst, Hin.
+      + specialize (Hsc name _ Hg). cbn [cell_ok] in Hsc. unfold pairs_ok in Hsc. rewrite Forall_forall in Hsc. apply (Hsc _ Hin).
+      + apply in_map_iff in H as (st & <- & Hin). unfold stmts_ok in *. rewrite Forall_forall in He, Ha, Hp.
+        apply in_app_or in Hin as [Hin|Hin]; [apply He, Hin|]. apply in_app_or in Hin as [Hin|Hin]; [apply Ha, Hin|apply Hp, Hin].
+      + apply in_map_iff in H as (x & <- & Hin). unfold prev_ok in Hv. rewrite Forall_forall in Hv. apply Hv, Hin.
+  Qed.
+
+  Theorem lexec_stmt_stores_own_ctx fuel le s s0 p0 s1 p1 d :
+    lexec_stmt t fl cfg glob regexes find call fuel le s s0 p0 = Ok (tt, s1, p1) ->
+    ctx_stored s1 d ->
+    ctx_stored s0 d \/ d = ll_ctx le \/ exists s', In s' (stmt_subs s) /\ d = ctx_update (ll_ctx le) s'.
+  Proof.
+    intros H. set (V := fun d => ctx_stored s0 d \/ d = ll_ctx le \/ exists s', In s' (stmt_subs s) /\ d = ctx_update (ll_ctx le) s').
+    assert (HI : Inv V (fun _ => True) s0) by (apply ctx_stored_inv; intros d' Hd; left; exact Hd).
+    assert (He : env_ok V le s).
+    { split; [right; left; reflexivity|]. intros s' Hs'. right. right. exists s'. auto. }
+    pose proof (k_lexec_stmt t fl cfg glob regexes find call Hcall V (fun _ => True) fuel le s He s0 p0 HI) as K. rewrite H in K.
+    destruct K as [K _]. revert d. apply ctx_stored_inv. exact K.
+  Qed.
 End CiteRun.
